@@ -1,7 +1,7 @@
 """C15 — motif file readers never panic or hang on malformed input (E7 inventory + E2/E3/E4 rules)."""
 import re
 from lm.db import short
-from lm import expr as X, guards as G, panics
+from lm import expr as X, guards as G, panics, tables
 from lm.match import norm, m
 from . import common
 
@@ -56,8 +56,17 @@ def d_symbol_index(f, s, R, db):
                 ty = f.local_ty(l[1][1])
                 if 'GenericArray<' in ty and 'Alphabet>::K' in ty:
                     return 'symbol-index: Symbol::as_index() < K = length of a GenericArray<_, A::K>'
+            row_of = None
             if l[0] == 'len' and l[1][0] == 'call' and l[1][1].endswith(('::index_mut', '::index')):
-                recv = l[1][2][0]
+                row_of = l[1][2][0]
+            elif l[0] == 'len':
+                # a row drawn from the matrix' row iterator (`for (row, x) in matrix.iter_mut().zip(..)`)
+                from lm import iteralg as IA
+                cr = IA.Canon(f, R).canon(l[1])
+                if cr[0] == 'at' and cr[1][0] in ('v', 'p') and 'DenseMatrix<' in f.local_ty(cr[1][1]):
+                    row_of = cr[1]
+            if row_of is not None:
+                recv = row_of
                 ty = type_of(f, recv)
                 if ty and 'DenseMatrix<' in ty and ('Alphabet>::K' in ty):
                     return 'symbol-index: Symbol::as_index() < K = width of a DenseMatrix<_, A::K> row (R5.1: discriminants < K)'
@@ -487,6 +496,24 @@ def str_literals_compared(f, R):
     return out
 
 
+def str_table_members(db, f, R):
+    """String literals of a constant table the function tests membership in (`const TAGS: [&str; N] = [..]; TAGS.contains(&x)`)."""
+    out = set()
+    for bi, t in f.calls():
+        c = f.callee_short(t) or ''
+        if c.endswith('slice::contains') and t['args']:
+            for x in X.walk(R.operand(t['args'][0])):
+                if x[0] == 'promoted':
+                    try:
+                        for el in tables.promoted_array(db, x[1], x[2]):
+                            v = common.str_const(el)
+                            if v is not None:
+                                out.add(v)
+                    except tables.NotTabulable:
+                        pass
+    return out
+
+
 def tag_literals(f, R):
     out = set()
     for bi, t in f.calls():
@@ -514,7 +541,7 @@ def d_table_agreement(f, s, R, db):
             pt = db.fn('lightmotif_io::transfac::parse::parse_tag')
         except KeyError:
             return None
-        acc = str_literals_compared(pt, X.Rec(pt))
+        acc = str_literals_compared(pt, X.Rec(pt)) | str_table_members(db, pt, X.Rec(pt))
         # the scrutinee of the match must be parse_tag's result
         uses_tag = any((f.callee_short(t) or '').endswith('parse::parse_tag') for _, t in f.calls())
         if uses_tag and acc and acc <= arms:
@@ -657,6 +684,10 @@ def d_offset_sites(f, s, R, db, ctxinfo):
         if b is not None and 'read_until' in X.canon(b['$n']):
             rels = G.relations(f, R, s['block'])
             nz = G.holds(rels, 'ne', lambda e: X.canon(e) == X.canon(b['$n']), lambda e: norm(e) == ('k', 0))
+            if not nz:
+                # `match n { 0 => .., _ => buffer[start..=start + n] }`
+                nz = next((r for r in rels if r[0] == 'switch' and X.canon(r[1]) == X.canon(b['$n']) and
+                           ((r[2][0] == 'notin' and 0 in r[2][1]) or (r[2][0] == 'eq' and r[2][1] != 0))), None)
             if inv_ok and nz:
                 return ('reasoned: buffer[start..=start+n] after read_until appended n > 0 bytes: len = len_before + n and start < len_before, because a parse '
                         'cannot consume the trailing delimiter and a fully consumed buffer only occurs at end of input where n == 0 (trusted: stable EOF)')
